@@ -28,7 +28,7 @@ theorem echo_of_frame (bufLen : Nat) (tr : Server.Transport) (payload id opcode 
     (hbuf : minBuf tr payload ≤ bufLen) (hpay : 512 ≤ payload) (msg : Bytes) (q : Option Spec.DQuestion)
     (hq : ∀ x, q = some x → ∃ nx, Spec.specQuestionAt msg 12 = some (x.qname, x.qtype, x.qclass, nx))
     (w1 : State)
-    (hfr : Fr (12 + (qOctets q).length) (qSt (hdrSt (w0 bufLen (lim0 tr)) id opcode rd) q) w1) :
+    (hfr : Fr false (12 + (qOctets q).length) (qSt (hdrSt (w0 bufLen (lim0 tr)) id opcode rd) q) w1) :
     EchoSt bufLen id opcode rd q w1 := by
   obtain ⟨hbase, hcur, o0, o1, o2, h30, hs3, hQ, hqd, han, hns, har, hrrs, hsz⟩ :=
     s1_facts bufLen tr payload id opcode rd hbuf hpay msg q hq
@@ -98,7 +98,7 @@ theorem hwc_echo (cfg : Server.Cfg) (tr : Server.Transport) (now bufLen : Nat) (
         -- FORMERR on the header-only writer
         have hcs : (hdrSt (w0 bufLen (lim0 tr)) id opcode rd).cursor = 12 := hH.cursor
         have hrs : (hdrSt (w0 bufLen (lim0 tr)) id opcode rd).rrStart = 12 := hH.rrStart
-        have := framed_bind (framed_setRcode 12 (by omega) 1 (by omega)) (fun _ => framed_pure 12 true)
+        have := framed_bind (k := false) (framed_setRcode 12 (by omega) 1 (by omega)) (fun _ => framed_pure 12 true)
           (hdrSt (w0 bufLen (lim0 tr)) id opcode rd) (by rw [hcs]; exact Nat.le_refl _) (by rw [hrs]; exact Nat.le_refl _)
         have h' : (setRcode 1 >>= fun _ => pure true : M Bool) (hdrSt (w0 bufLen (lim0 tr)) id opcode rd) =
             (.ok true, w1) := h
